@@ -2,12 +2,92 @@
     Model/C19.v: the resolved expression language of lib/src/revset.rs, its translation
     [resolve] to the backend language (resolve_visibility), the set-theoretic meaning
     [bden] of backend expressions over a commit graph, and the optimizer [optimize]
-    (resolve_referenced_commits + the ten bottom-up passes, transcribed one by one).
+    (resolve_referenced_commits [rrc] + the ten bottom-up passes, transcribed one by one,
+    u64 saturation explicit).  [den W c e] = the set an expression denotes in context [c].
     NOT modelled: the lazy index walks of revset_engine.rs / rev_walk.rs; they are tied to
-    [den] by the correspondence check only. *)
-From Verif Require Import Base.Prelude Base.DagR Gen.Tables Model.C19 Proofs.C19.
+    [den] by the correspondence check only (differential testing, not proof). *)
+From Verif Require Import Base.Prelude Base.DagR Gen.Tables Model.C19 Proofs.C19 Proofs.C19Rrc.
 From Coq Require Import Sorted.
 Local Open Scope nat_scope.
+
+(** Hypotheses on the commit graph, all decidable and checked on every correspondence case:
+    parents precede children in index order ([wf_graph]), parent lists and the index fit
+    32-bit positions ([pc_ok], [small]: the index's own representation), every commit but
+    the root has a parent. *)
+Definition graph_ok (G : graph) : Prop :=
+  wf_graph G /\ pc_ok G /\ small G /\
+  (forall x, x < length G -> x <> 0 -> parents G x <> []).
+
+(** HEADLINE.  For every graph, every filter interpretation, every view (visible heads, at
+    least one of them in the index) and every expression whose pre-existing scope nodes are
+    well formed ([pre_ok]; trivially true for expressions without [WithinReference] /
+    [WithinVisibility] nodes, see [C19_optimize_sound_plain]): the optimized expression
+    denotes the same set of commits as the expression [evaluate_unoptimized] evaluates. *)
+Theorem C19_optimize_sound : forall (W : world) (e : expr) (c0 : vctx),
+  graph_ok (w_graph W) ->
+  x_refs c0 = [] -> (exists v, In v (x_vis c0) /\ v < length (w_graph W)) ->
+  pre_ok W e ->
+  den W c0 (optimize e) = den W c0 (rrc e).
+Proof.
+  intros W e c0 [H1 [H2 [H3 H4]]] Hr Hv Hp. exact (optimize_sound W H1 H2 H3 H4 e c0 Hr Hv Hp).
+Qed.
+
+Theorem C19_optimize_sound_plain : forall (W : world) (e : expr) (c0 : vctx),
+  graph_ok (w_graph W) ->
+  x_refs c0 = [] -> (exists v, In v (x_vis c0) /\ v < length (w_graph W)) ->
+  no_scope e = true ->
+  den W c0 (optimize e) = den W c0 (rrc e).
+Proof.
+  intros W e c0 Hg Hr Hv Hn. apply C19_optimize_sound; auto. now apply no_scope_pre_ok.
+Qed.
+
+(** Listing = what [Revset::stream] yields.  When neither evaluation raises the
+    generation-bound error (see [C19_optimize_error_refuted] for why this side condition
+    cannot be dropped), optimized and unoptimized evaluation list the same commits. *)
+Theorem C19_eval_agree : forall (W : world) (e : expr) (c0 : vctx),
+  graph_ok (w_graph W) ->
+  x_refs c0 = [] -> (exists v, In v (x_vis c0) /\ v < length (w_graph W)) ->
+  pre_ok W e ->
+  berr W (resolve c0 (optimize e)) = false -> berr W (resolve c0 (rrc e)) = false ->
+  eval W c0 (optimize e) = eval W c0 (rrc e).
+Proof.
+  intros W e c0 Hg Hr Hv Hp E1 E2. unfold eval. rewrite E1, E2. f_equal. f_equal.
+  exact (C19_optimize_sound W e c0 Hg Hr Hv Hp).
+Qed.
+
+(** Pass by pass: each of the ten rewriting rules keeps scoping and denotation at every
+    well-scoped position, in every context (then [C19_bottom_up_sound] lifts a rule to the
+    bottom-up traversal). *)
+Theorem C19_passes_sound : forall (W : world), graph_ok (w_graph W) ->
+  Forall (sound_post W) passes.
+Proof. intros W [H1 [H2 [H3 H4]]]. exact (passes_sound W H1 H2 H3 H4). Qed.
+
+Theorem C19_bottom_up_sound : forall (W : world), graph_ok (w_graph W) ->
+  forall post, sound_post W post ->
+  forall e c, okctx W c -> wfs W (x_refs c) e ->
+    wfs W (x_refs c) (tr post e) /\ den W c (tr post e) = den W c e.
+Proof.
+  intros W [H1 [H2 [H3 H4]]] post Hp e c Hc Hw. exact (tr_sound W H1 H2 H3 H4 post Hp e c Hc Hw).
+Qed.
+
+(** [resolve_referenced_commits] makes every scope list the commits mentioned inside it. *)
+Theorem C19_rrc_scoped : forall (W : world) (e : expr), pre_ok W e -> top_ok W (rrc e).
+Proof. exact rrc_top_ok. Qed.
+
+(** Nested generation ranges fold exactly, with [u64::saturating_add] and the engine's
+    clamp to [u32::MAX], on graphs that fit the index. *)
+Theorem C19_fold_generation : forall (W : world), graph_ok (w_graph W) ->
+  forall p g1 g2 S,
+  anc_gen (w_graph W) p g1 (anc_gen (w_graph W) p g2 S)
+  = anc_gen (w_graph W) p (add_generation g1 g2) S.
+Proof. intros W [H1 [H2 [H3 H4]]]. exact (anc_gen_add W H1 H3). Qed.
+
+(** Everything a well-scoped expression denotes lies inside [all()] — the reason
+    [resolve_referenced_commits] must run before [x & all() -> x]. *)
+Theorem C19_within_all : forall (W : world), graph_ok (w_graph W) ->
+  forall e c, okctx W c -> wfs W (x_refs c) e ->
+  forall x, bmem (den W c e) x = true -> bmem (den W c EAll) x = true.
+Proof. intros W [H1 [H2 [H3 H4]]]. exact (sub_all W H1 H2 H3 H4). Qed.
 
 (** The listing of a denotation: strictly descending index positions (newest first), hence
     duplicate-free, and exactly the members. *)
@@ -17,6 +97,18 @@ Theorem C19_order : forall (n : nat) (s : bset),
 Proof.
   intros n s. split; [apply blist_sorted|]. split; [apply StronglySorted_gt_NoDup, blist_sorted|].
   apply blist_In.
+Qed.
+
+(** Heads and roots of the set semantics are the declarative ones. *)
+Theorem C19_heads_roots : forall (G : graph), graph_ok G -> forall S x,
+  (bmem (heads G S) x = true <->
+   x < length G /\ bmem S x = true /\
+   ~ exists k y, 1 <= k /\ y < length G /\ bmem S y = true /\ reach (parents G) k y x) /\
+  (bmem (roots G S) x = true <->
+   x < length G /\ bmem S x = true /\
+   ~ exists k r, 1 <= k /\ bmem S r = true /\ reach (parents G) k x r).
+Proof.
+  intros G [H1 [H2 [H3 H4]]] S x. split; [apply heads_spec|apply roots_spec]; assumption.
 Qed.
 
 (** What the per-case checker [okb] means on the implementation's outputs: optimized and
@@ -36,16 +128,18 @@ Proof.
   - apply set_ok_spec in Hs. tauto.
 Qed.
 
-(** Bottom-up rewriting ([transform_expression_bottom_up]) with a rule that is sound at
-    every well-scoped position preserves scoping and denotation of the whole expression,
-    in every context, for every graph. *)
-Theorem C19_bottom_up_sound : forall (W : world),
-  wf_graph (w_graph W) -> pc_ok (w_graph W) -> small (w_graph W) ->
-  (forall x, x < length (w_graph W) -> x <> 0 -> parents (w_graph W) x <> []) ->
-  forall post, sound_post W post ->
-  forall e c, okctx W c -> wfs W (x_refs c) e ->
-    wfs W (x_refs c) (tr post e) /\ den W c (tr post e) = den W c e.
-Proof. intros W H1 H2 H3 H4 post Hp e c Hc Hw. exact (tr_sound W H1 H2 H3 H4 post Hp e c Hc Hw). Qed.
+(** KNOWN FINDING (class [known_class], "fold-generation-lower-bound-overflow"): the
+    statement "optimized and unoptimized evaluations agree" is false at the level of
+    errors.  [fold_generation] adds two lower bounds; when the sum exceeds [u32::MAX] the
+    engine's [to_u32_generation_range] raises an error although each part alone is fine
+    (and denotes the empty set).  Witness: [parents(parents(root(), 4294967295), 1)]. *)
+Definition C19_witness_world : world := mk_world [[]; [0]] [0%Z; 0%Z] [].
+Definition C19_witness_expr : expr :=
+  EAncestors (EAncestors ERoot (4294967295, 4294967296)%N PR_FULL) (1, 2)%N PR_FULL.
+Theorem C19_optimize_error_refuted :
+  eval C19_witness_world (mk_vctx [] [1] true) (rrc C19_witness_expr) = Some [] /\
+  eval C19_witness_world (mk_vctx [] [1] true) (optimize C19_witness_expr) = None.
+Proof. split; vm_compute; reflexivity. Qed.
 
 (** The model's pass list is the pass order of [optimize] in the source. *)
 Example C19_pass_order :
@@ -57,6 +151,30 @@ Example C19_pass_order :
   /\ length passes = 10.
 Proof. split; reflexivity. Qed.
 
-Print Assumptions C19_order.
+(** Non-vacuity: a graph with a merge and a hidden commit satisfies the hypotheses, and an
+    expression exercising several passes is rewritten and keeps a non-empty denotation. *)
+Definition C19_ex_world : world :=
+  mk_world [[]; [0]; [0]; [1; 2]; [1]; [3]] [0%Z; 1%Z; 2%Z; 3%Z; 4%Z; 5%Z]
+           [bof_list 6 [1; 3; 5]].
+Definition C19_ex_expr : expr :=
+  EHeads (EIntersection (ERange (ECommits [1]) (ECommits [5; 4]) GEN_FULL PR_FULL) (EFilter 0)).
+Example C19_nonvacuous :
+  graph_ok (w_graph C19_ex_world) /\
+  pre_ok C19_ex_world C19_ex_expr /\
+  optimize C19_ex_expr =
+    EWithinReference (EHeadsRange (ECommits [1]) (ECommits [5; 4]) PR_FULL (EFilter 0)) [1; 5; 4] /\
+  blist 6 (den C19_ex_world (mk_vctx [] [5] true) (optimize C19_ex_expr)) = [5] /\
+  blist 6 (den C19_ex_world (mk_vctx [] [5] true) (rrc C19_ex_expr)) = [5].
+Proof.
+  split.
+  { split; [apply wf_graphb_spec; reflexivity|].
+    split; [apply pc_okb_spec; reflexivity|].
+    split; [apply small_dec; reflexivity|].
+    apply rootedb_spec. reflexivity. }
+  split; [cbn; tauto|]. repeat split; vm_compute; reflexivity.
+Qed.
+
+Print Assumptions C19_optimize_sound.
+Print Assumptions C19_eval_agree.
 Print Assumptions C19_checker_spec.
-Print Assumptions C19_bottom_up_sound.
+Print Assumptions C19_optimize_error_refuted.
